@@ -12,7 +12,12 @@
 //     real calls of remove_all_modified_cnst_set() (about 7 s); argv[2]=="fast" sets visited_counter_ to UINT_MAX instead.
 // Each history is run on a selective-update system and on a full-update system; property C17: same rates.
 // exit 1 = reproduced (rates differ), 0 = not reproduced.
+// replay.py compiles the WORKING TREE's System.cpp into the driver (a copy whose config-flag name is changed, because the
+// library registers "debug/lmm-leaks" already): the driver's definitions take precedence over libsimgrid.so, so the replay
+// follows the source even when the library has not been rebuilt. Compiled alone, this file shows the library's behaviour.
+#ifndef C17_TREE_TU_INCLUDED
 #include "src/kernel/lmm/System.hpp"
+#endif
 #include "src/kernel/lmm/maxmin.hpp"
 #include <cstdio>
 #include <cstring>
@@ -68,8 +73,8 @@ static void hist_b(S& s, bool full_loop)
   solve(s); // epoch 1 -> 2; v was created with stamp visited_counter_-1 == 0 and is disabled: never visited
   if (s.sys->selective_update_active) {
     if (full_loop) {
-      while (s.sys->visited_counter_ != 0)
-        s.sys->remove_all_modified_cnst_set(); // what 2^32-2 further solves do to the counter
+      for (unsigned long long i = 0; i < (1ull << 32) - 2; i++)
+        s.sys->remove_all_modified_cnst_set(); // what 2^32-2 further solves do to the counter (2 -> wrap)
     } else {
       s.sys->visited_counter_ = 0xffffffffu;
       s.sys->remove_all_modified_cnst_set(); // the wrapping call
